@@ -444,3 +444,73 @@ def c16(c):
     c.partial = ["exact-arithmetic correctness is a theorem for n ≤ 2 (real) and n = 1 (complex) only; n = 3..12 and complex n ≥ 2 are covered by executing the same model bit for bit beside the Rust routines (X-lu) plus the exact-rational oracle on those outputs",
                  "the rounding-error bound c·n·eps·|A|·|x| is a statement about IEEE arithmetic: decided per input by the exact-rational oracle (normwise form, c = 64), not a theorem",
                  "exactly singular matrices whose last pivot is a rounding residue are not required to be rejected (the property says 'exactly zero pivot column')"]
+
+
+# ---------------------------------------------------------------------------------------------- C20 (Python binding)
+C20_THEOREMS = ["Py.c20_layout", "Py.c20_status", "Py.c20_sol_layout", "Py.c20_grouping_sound", "Py.c20_sparsity_same_jacobian",
+                "Py.groupColumns_none_iff", "Py.inv_step", "Py.transposeY_spec", "Py.ofName_name", "Py.colToRows_getD"]
+
+
+def build_pymodule(c):
+    """build /repo with --features python into /verif/.work/pytarget and expose it as .work/pymod/ivp.so"""
+    import shutil
+    tgt = os.path.join(VERIF, ".work", "pytarget")
+    env = dict(os.environ, CARGO_TARGET_DIR=tgt, CARGO_NET_OFFLINE="true")
+    rc, out, dt = sh(["cargo", "build", "--release", "--offline", "--features", "python", "--manifest-path", os.path.join(REPO, "Cargo.toml")], env=env, timeout=3000)
+    c.monitors["python_extension_build"] = {"s": round(dt, 2), "rc": rc}
+    so = os.path.join(tgt, "release", "libivp.so")
+    if rc != 0 or not os.path.exists(so):
+        c.violation("harness-build", "the Python extension (cargo build --features python) does not build", {"output_tail": out[-1500:]}, False)
+        return None
+    mod = os.path.join(VERIF, ".work", "pymod")
+    os.makedirs(mod, exist_ok=True)
+    shutil.copy(so, os.path.join(mod, "ivp.so"))
+    return mod
+
+
+def c20(c):
+    common_proof(c, "IvpModel.Props.C20", C20_THEOREMS)
+    if c.build_harness() and c.build_driver():
+        mod = build_pymodule(c)
+        if mod:
+            rows = []
+
+            def python_side(prefix, st):
+                rc, out, dt = sh(["python3-vt", os.path.join(VERIF, "bin", "py_cosim.py"), prefix, mod], timeout=3000)
+                st["python_s"] = round(dt, 2)
+                rows.extend(r for r in jlines(out) if r.get("kind") == "pym")
+                if rc != 0 or not os.path.exists(prefix + ".impl"):
+                    st["error"] = out[-800:]
+                    c.violation("correspondence", "stream xpy: the Python side failed", {"output": out[-1200:]}, False)
+                    return False
+                return True
+
+            if os.path.exists(os.path.join(VERIF, ".work", "C20_xpy.impl")):
+                os.remove(os.path.join(VERIF, ".work", "C20_xpy.impl"))
+            c.stream("xpy", ["xpy", c.seed, 400 if c.tier == "quick" else 8000], "py", between=python_side)
+            bad = [r for r in rows if r.get("ok") is False]
+            hist = {}
+            for r in rows:
+                for key in ("op", "method", "problem", "status", "branch"):
+                    if key in r:
+                        hist.setdefault(key, {}).setdefault(str(r[key]), 0)
+                        hist[key][str(r[key])] += 1
+            c.monitors["python_monitor"] = {"cases": len(rows), "failures": len(bad), "distribution": hist,
+                                            "checks": "shape/dtype/success invariants; sol(t) shapes; sparsity: groups read off the perturbed states never share a row, exact-structure pattern leaves t, y, njev unchanged (csc/coo/csr inputs)"}
+            seen = set()
+            for r in bad:
+                key = r.get("finding_key") or "c20"
+                if key in seen:
+                    continue
+                seen.add(key)
+                rep = dict(r)
+                rep["rerun"] = "harness xpy %s %s <prefix>; python3-vt bin/py_cosim.py <prefix> .work/pymod" % (c.seed, 400 if c.tier == "quick" else 8000)
+                c.violation("implementation-vs-oracle", "python_monitor: %s" % r.get("why", ""), rep, True)
+    c.cov["samples"] += [
+        {"theorem": "Py.c20_grouping_sound", "statement": "groupColumns cols n = some (groups, k) → |groups| = |cols| ∧ ∀ c, groups[c] < k ∧ ∀ c1 ≠ c2, groups[c1] = groups[c2] → rows(c1) ∩ rows(c2) = ∅   (every pattern)"},
+        {"theorem": "Py.c20_sparsity_same_jacobian", "statement": "Respects f cols → row ∈ rows(col) → sparseEntry f y h groups row col = denseEntry f y h row col   (any number system)"},
+        {"theorem": "Py.c20_layout", "statement": "buildResult: yshape = (n, m), y[j·m+i] = sol.y[i][j], njev = if constJac then 0 else sol.njev, …"},
+    ]
+    c.partial = ["argument marshalling through the CPython API (parse_options, parse_events, extract_float_array, PythonIVP callbacks) is not modelled: it is exercised by the X-py co-simulation only (list/ndarray/tuple inputs, bare or listed events, args, constant/callable Jacobian, omitted tolerances, method aliases)",
+                 "the layout model is specification-shaped (Array.ofFn), the grouping model is a list transcription of group_columns; both are tied to the extension module by X-py, not by the translator",
+                 "'exactly the numbers the Rust solve_ivp produces' is decided per case by X-py (bit-for-bit, problems with identical operation order on both sides), not by a theorem"]
